@@ -140,6 +140,23 @@ def _impl(tier, seed, search):
         ok, r = L.noraise('EulerVec', lambda: (SO3.EulerVec(w).A, SE3.EulerVec(w).A[:3, :3], UnitQuaternion.EulerVec(w).R, SO3.Exp(w).A), dict(w=w), 'EulerVec / Exp constructors')
         if ok:
             L.close('EulerVec:SE3', r[1], r[0], TOL, 1.0, dict(w=w)); L.close('EulerVec:UQ', r[2], r[0], TOL, 1.0, dict(w=w)); L.close('EulerVec:Exp', r[3], r[0], TOL, 1.0, dict(w=w))
+        # rotation vectors longer than pi (up to 3 pi): every class still builds the same rotation, and halving composes
+        wl = ax * float(g.uniform(math.pi, 3 * math.pi))
+        ok, r = L.noraise('EulerVec(long)', lambda: (SO3.EulerVec(wl).A, SE3.EulerVec(wl).A[:3, :3], UnitQuaternion.EulerVec(wl).R, SO3.Exp(wl).A, (UnitQuaternion.EulerVec(wl / 2) * UnitQuaternion.EulerVec(wl / 2)).R),
+                          dict(w=wl), 'EulerVec / Exp constructors on a rotation vector longer than pi')
+        if ok:
+            for nm_, k_ in (('SE3', 1), ('UQ', 2), ('Exp', 3), ('UQ(w/2)^2', 4)):
+                L.close(f'EulerVec(long):{nm_}', r[k_], r[0], TOL, 1.0, dict(w=wl), what=f'{nm_} and SO3.EulerVec give different rotations for a rotation vector longer than pi', sig='EulerVec:long')
+        # a twist times a pose is the pose product (2-D and 3-D), and it is a pose
+        if i % 3 == 0:
+            from spatialmath import Twist3 as Tw3c_, Twist2 as Tw2c_, SE2 as SE2c_
+            A3_, B3_ = SE3(inputs.se3(g, 1), check=False), SE3(inputs.se3(g, 1), check=False)
+            A2_, B2_ = SE2c_(inputs.se2(g, 1), check=False), SE2c_(inputs.se2(g, 1), check=False)
+            for nm_, f_, want_ in (('Twist3*SE3', lambda: Tw3c_(A3_) * B3_, (A3_ * B3_).A), ('Twist2*SE2', lambda: Tw2c_(A2_) * B2_, (A2_ * B2_).A)):
+                ok, r = L.noraise(nm_, f_, dict(A=A3_.A if '3' in nm_ else A2_.A, B=B3_.A if '3' in nm_ else B2_.A), nm_)
+                if ok:
+                    L.check(f'{nm_}:class', type(r).__name__ == nm_.split('*')[1], dict(op=nm_), f'{nm_} is not a {nm_.split("*")[1]}', sig='Twist*pose')
+                    L.close(nm_, np.asarray(r.A, float), np.asarray(want_, float), TOL, max(1.0, geom.tmag(np.asarray(want_, float))), dict(op=nm_), what=f'{nm_} differs from the product of the poses', sig='Twist*pose')
         # the quaternion exponential of half the rotation vector is the same rotation
         from spatialmath import Quaternion as Q_
         ok, r = L.noraise('Quaternion.exp', lambda: (np.asarray(Q_.Pure(w / 2).exp().vec, float), np.asarray(UnitQuaternion.EulerVec(w).vec, float)), dict(w=w), 'Quaternion.Pure(w/2).exp()')
